@@ -1001,3 +1001,96 @@ def run_empty_unit(run, P, fname='coap_read_session', unit_field='partial_pdu', 
                           '(Ping, Pong, option-less CSM) is delivered only when the peer happens to send another byte', ctx.path())
     run.instance('R-STREAM-ADV', '%s: a unit created with nothing left to read is dispatched before the function returns' % fname)
     solve(f, Env(), on_event, on_exit, keys, R, key_fn=lambda e: (e.ts.get('pend0'), tuple(e.intf(s_)[:2] for s_ in sorted(sizes))))
+
+
+def run_buffer_param(run, P):
+    """R-STREAM-CAP (the caller's buffer): a layer read function is handed a buffer and its capacity (`uint8_t *data, size_t datalen`) and
+    passes part of the buffer down to the next layer's read slot.  The size it asks the lower layer for is bounded by the capacity on
+    EVERY path of THIS call: the size expression is built from the capacity parameter, or a variable / field occurring in it has been
+    compared with the capacity parameter on the path (and the call sits on the arm that is not "bigger than").  State kept in the session
+    from an earlier call -- the declared size of a frame whose header an earlier call parsed -- was checked against THAT call's buffer:
+    a re-entered call with a smaller buffer (coap_ws_close() drains with 100 bytes) that skips the header phase reads the declared
+    size into whatever it was given."""
+    run.rule('R-STREAM-CAP')
+    n = 0
+    for f in sorted(P.lib_funcs(), key=lambda f: f['name']):
+        ps = f.get('params') or ()
+        pairs = []
+        for i in range(len(ps) - 1):
+            a, b_ = ps[i], ps[i + 1]
+            if a.get('p') and (a.get('pt') or '').replace('const ', '') in ('unsigned char', 'uint8_t', 'char', 'void') and not a.get('pc') and \
+               not b_.get('p') and (b_.get('t') or '') in ('size_t', 'unsigned long', 'unsigned int', 'int', 'ssize_t'):
+                pairs.append(('v%s' % a['id'], 'v%s' % b_['id'], a['n'], b_['n']))
+        if not pairs:
+            continue
+        sites = []
+        for b, ev in P.events(f):
+            t = ev['e']
+            if t.get('k') == 'call' and callee_field(t) in READ_FIELDS and len(t.get('a') or ()) >= 3:
+                dst, size = t['a'][-2], t['a'][-1]
+                for bufp, capp, bn, cn in pairs:
+                    if any(isinstance(x, dict) and x.get('k') == 'var' and ap(x) == bufp for x in walk(dst)):
+                        sites.append((ev, size, capp, bn, cn))
+        if not sites:
+            continue
+        name = f['name']
+        caps = set(s_[2] for s_ in sites)
+        sizevars = set()
+        for ev, size, capp, bn, cn in sites:
+            for x in walk(size):
+                if isinstance(x, dict) and x.get('k') in ('var', 'mem') and ap(x):
+                    sizevars.add(ap(x))
+
+        def is_rule_event(ev):
+            return any(ev is s_[0] for s_ in sites)
+        keys, R = relevance(f, is_rule_event, sizevars | caps)
+        keys = set(b['id'] for b in f['blocks'])
+        R = set(R) | sizevars | caps
+        rep = set()
+
+        def on_branch(b, s, env, ctx):
+            c = strip((b.get('term') or {}).get('cond'))
+            if not (isinstance(c, dict) and c.get('k') == 'bin' and c.get('op') in ('<', '>', '<=', '>=') and len(b['succ']) == 2):
+                return env
+            truth = s == b['succ'][0]
+            lv = set(ap(x) for x in walk(c['l']) if isinstance(x, dict) and x.get('k') in ('var', 'mem') and ap(x))
+            rv = set(ap(x) for x in walk(c['r']) if isinstance(x, dict) and x.get('k') in ('var', 'mem') and ap(x))
+            for capp in caps:
+                if capp in rv and lv - {capp}:          # V op cap
+                    small = (c['op'] in ('<', '<=') and truth) or (c['op'] in ('>', '>=') and not truth)
+                    vs = lv
+                elif capp in lv and rv - {capp}:        # cap op V
+                    small = (c['op'] in ('>', '>=') and truth) or (c['op'] in ('<', '<=') and not truth)
+                    vs = rv
+                else:
+                    continue
+                if small:
+                    e = env.copy()
+                    e.ts['le'] = frozenset(env.ts.get('le', frozenset()) | {(v, capp) for v in vs})
+                    return e
+            return env
+
+        def on_event(ev, env, ctx):
+            t = ev['e']
+            for sev, size, capp, bn, cn in sites:
+                if ev is sev:
+                    vs = set(ap(x) for x in walk(size) if isinstance(x, dict) and x.get('k') in ('var', 'mem') and ap(x))
+                    ok = capp in vs or any((v, capp) in env.ts.get('le', ()) for v in vs) or const_int(size) is not None
+                    run.oblige('R-STREAM-CAP', ok, '%s:read-size-within-callers-buffer' % name)
+                    if not ok and ev['loc'] not in rep:
+                        rep.add(ev['loc'])
+                        run.violation('R-STREAM-CAP', name, ev['loc'], 'read-into-callers-buffer-unbounded-by-its-capacity',
+                                      '%s() reads `%s` bytes into the buffer it was handed (%s) on a path of this call that has not compared that size with the capacity %s: '
+                                      'the size comes from state an earlier call left in the session, checked against that call\'s buffer, not this one'
+                                      % (name, short(size)[:50], bn, cn), ctx.path())
+            # an assignment to a size variable forgets what was known about it
+            if t.get('k') == 'asg' and ap(t['l']) and any(v == ap(t['l']) for v, _c in env.ts.get('le', ())):
+                e = apply_generic(ev, env, R).copy()
+                e.ts['le'] = frozenset(x for x in env.ts['le'] if x[0] != ap(t['l']))
+                return [e]
+            return None
+        for s_ in sites:
+            n += 1
+            run.instance('R-STREAM-CAP', '%s: the size read into the caller\'s buffer %s is bounded by %s on every path of the call' % (name, s_[3], s_[4]))
+        solve(f, Env(), on_event, None, keys, R, key_fn=lambda e: e.ts.get('le'), on_branch=on_branch)
+    run.require_count(n >= 1 or run.fixture_mode or run.cfg != 'base', 'R-STREAM-CAP(caller\'s buffer): no read slot call into a (buffer, capacity) parameter pair found (expected coap_ws_read)')
